@@ -5,6 +5,7 @@ import (
 	"go/constant"
 	"go/token"
 	"go/types"
+	"os"
 	"sort"
 	"strings"
 
@@ -423,6 +424,8 @@ func runC10(c *core.Ctx) {
 	for _, n := range names {
 		if why, ok := reviewed[n]; ok {
 			c.Discharge("test.globals", n, written[n], "reviewed: "+why)
+		} else if why := memoCacheOnly(prog, reach, n); why != "" {
+			c.Discharge("test.globals", n, written[n], why)
 		} else {
 			c.Report("test.globals", n, written[n], "package-level variable "+n+" is written by code reachable from a test run and is not in the reviewed set: state that can leak from one test into the next")
 		}
@@ -716,4 +719,236 @@ func checkInstrumentDuplicates(c *core.Ctx) {
 		}
 	}
 	c.Floor("test.instrdup", 8)
+}
+
+// memoCacheOnly: the package-level variable is a memo table whose content cannot be observed: every write reachable
+// from a test is either a reset to a fresh empty map or a map update whose value is an immutable value (basic type,
+// *regexp.Regexp) computed by pure library calls from nothing but what the key is computed from. A test that finds an
+// entry left by another test reads exactly what it would have computed itself. Returns the reason, or "".
+func memoCacheOnly(prog *core.Program, reach map[*ssa.Function]bool, name string) string {
+	isG := func(target ssa.Value) bool {
+		roots := map[ssa.Value]bool{}
+		addrRoots(target, roots, map[ssa.Value]bool{})
+		for r := range roots {
+			if g, ok := r.(*ssa.Global); ok && g.Pkg != nil && strings.TrimPrefix(g.Pkg.Pkg.Path(), core.ModPath+"/")+"."+g.Name() == name {
+				return true
+			}
+		}
+		return false
+	}
+	pureCall := func(cal *ssa.Function) bool {
+		if cal == nil || cal.Pkg == nil {
+			return false
+		}
+		switch cal.Pkg.Pkg.Path() {
+		case "strings", "strconv", "unicode", "unicode/utf8", "path", "net/textproto":
+			return true
+		case "regexp":
+			return cal.Name() == "Compile" || cal.Name() == "MustCompile" || cal.Name() == "QuoteMeta" || cal.Name() == "CompilePOSIX"
+		case "fmt":
+			return cal.Name() == "Sprintf" || cal.Name() == "Sprint"
+		}
+		return false
+	}
+	// det: the parameters v is computed from, when it is computed from parameters and constants by pure operations only
+	cells := map[*ssa.Alloc]bool{}
+	var det func(v ssa.Value, out map[*ssa.Parameter]bool, seen map[ssa.Value]bool) bool
+	det = func(v ssa.Value, out map[*ssa.Parameter]bool, seen map[ssa.Value]bool) bool {
+		if v == nil || seen[v] {
+			return true
+		}
+		seen[v] = true
+		localCell := func(a ssa.Value) *ssa.Alloc {
+			for {
+				switch t := a.(type) {
+				case *ssa.FieldAddr:
+					a = t.X
+					continue
+				case *ssa.IndexAddr:
+					a = t.X
+					continue
+				case *ssa.Alloc:
+					return t
+				}
+				return nil
+			}
+		}
+		var cellStores func(al *ssa.Alloc) bool
+		cellStores = func(al *ssa.Alloc) bool {
+			if cells[al] {
+				return true
+			}
+			cells[al] = true
+			var visit func(addr ssa.Value) bool
+			visit = func(addr ssa.Value) bool {
+				if addr.Referrers() == nil {
+					return true
+				}
+				for _, r := range *addr.Referrers() {
+					switch t := r.(type) {
+					case *ssa.Store:
+						if t.Addr == addr && !det(t.Val, out, seen) {
+							return false
+						}
+					case *ssa.FieldAddr:
+						if !visit(t) {
+							return false
+						}
+					case *ssa.IndexAddr:
+						if !det(t.Index, out, seen) || !visit(t) {
+							return false
+						}
+					}
+				}
+				return true
+			}
+			return visit(al)
+		}
+		switch t := v.(type) {
+		case *ssa.Const:
+			return true
+		case *ssa.Parameter:
+			out[t] = true
+			return true
+		case *ssa.Alloc:
+			return cellStores(t)
+		case *ssa.UnOp:
+			if t.Op == token.MUL {
+				if al := localCell(t.X); al != nil {
+					return cellStores(al)
+				}
+				return false // a load from memory that is not a local cell
+			}
+			return det(t.X, out, seen)
+		case *ssa.Call:
+			if bi, ok := t.Common().Value.(*ssa.Builtin); ok {
+				if bi.Name() != "len" && bi.Name() != "append" && bi.Name() != "min" && bi.Name() != "max" {
+					return false
+				}
+			} else if !pureCall(t.Common().StaticCallee()) {
+				return false
+			}
+			for _, a := range t.Common().Args {
+				if !det(a, out, seen) {
+					return false
+				}
+			}
+			return true
+		case *ssa.BinOp, *ssa.Convert, *ssa.ChangeType, *ssa.MakeInterface, *ssa.ChangeInterface, *ssa.Slice, *ssa.Extract, *ssa.Phi, *ssa.Field, *ssa.Index, *ssa.FieldAddr, *ssa.IndexAddr:
+			for _, op := range t.(ssa.Instruction).Operands(nil) {
+				if *op != nil && !det(*op, out, seen) {
+					return false
+				}
+			}
+			return true
+		}
+		return false
+	}
+	detTop := func(v ssa.Value, out map[*ssa.Parameter]bool) bool {
+		cells = map[*ssa.Alloc]bool{}
+		return det(v, out, map[ssa.Value]bool{})
+	}
+	immutable := func(t types.Type) bool {
+		if _, ok := t.Underlying().(*types.Basic); ok {
+			return true
+		}
+		return core.NamedTypePkgName(t) == "regexp.Regexp"
+	}
+	callSites := func(h *ssa.Function) []*ssa.Call {
+		var out []*ssa.Call
+		for _, fn := range prog.ModuleFuncs() {
+			for _, b := range fn.Blocks {
+				for _, in := range b.Instrs {
+					if call, ok := in.(*ssa.Call); ok && call.Common().StaticCallee() == h {
+						out = append(out, call)
+					}
+				}
+			}
+		}
+		return out
+	}
+	updates := 0
+	for f := range reach {
+		for _, b := range f.Blocks {
+			for _, in := range b.Instrs {
+				switch t := in.(type) {
+				case *ssa.Store:
+					if !isG(t.Addr) {
+						continue
+					}
+					if _, fresh := t.Val.(*ssa.MakeMap); !fresh {
+						return ""
+					}
+				case *ssa.MapUpdate:
+					if !isG(t.Map) {
+						continue
+					}
+					if !immutable(t.Value.Type()) {
+						return ""
+					}
+					kp, vp := map[*ssa.Parameter]bool{}, map[*ssa.Parameter]bool{}
+					if !detTop(t.Key, kp) || !detTop(t.Value, vp) {
+						return ""
+					}
+					within := true
+					for p := range vp {
+						if !kp[p] {
+							within = false
+						}
+					}
+					if within {
+						updates++
+						continue
+					}
+					// key and value arrive as parameters of a small store helper: judge them where they are made
+					sites := callSites(f)
+					if len(sites) == 0 || f.Parent() != nil {
+						return ""
+					}
+					idx := func(p *ssa.Parameter) int {
+						for i, q := range f.Params {
+							if q == p {
+								return i
+							}
+						}
+						return -1
+					}
+					for _, call := range sites {
+						ck, cv := map[*ssa.Parameter]bool{}, map[*ssa.Parameter]bool{}
+						for p := range kp {
+							if !detTop(call.Common().Args[idx(p)], ck) {
+								return ""
+							}
+						}
+						for p := range vp {
+							if !detTop(call.Common().Args[idx(p)], cv) {
+								return ""
+							}
+						}
+						if os.Getenv("FV_DEBUG") != "" {
+							fmt.Fprintln(os.Stderr, "memo", name, "site", prog.Loc(call.Pos()), "key params", len(ck), "value params", len(cv))
+						}
+						for p := range cv {
+							if !ck[p] {
+								return ""
+							}
+						}
+					}
+					updates++
+				case *ssa.Call:
+					cal := t.Common().StaticCallee()
+					if cal != nil && cal.Pkg != nil && cal.Pkg.Pkg.Path() == "maps" && cal.Name() == "Copy" && len(t.Common().Args) > 0 && isG(t.Common().Args[0]) {
+						return ""
+					}
+					if bi, ok := t.Common().Value.(*ssa.Builtin); ok && bi.Name() == "delete" && isG(t.Common().Args[0]) {
+						continue // dropping an entry of a memo table only costs a recomputation
+					}
+				}
+			}
+		}
+	}
+	if updates == 0 {
+		return ""
+	}
+	return "memo table: every entry is an immutable value computed by pure library calls from what its key is computed from, and the only other writes are resets; an entry left by another test is what this test would compute"
 }
